@@ -153,6 +153,11 @@ def build_overlay(prop, root):
         new = sw["to"]
         text = text.replace(old, f"#[cfg(not(kani))] {old}\n#[cfg(kani)] {new}", 1) if sw.get("cfg", True) \
             else text.replace(old, new, 1)
+        # The repository's own unit-test modules of a swapped file use std-only conveniences
+        # (`vec![..].into()`, `assert_eq!(deque, vec![..])`) that the container model does not offer; they
+        # are not part of any claim but would break the NATIVE replay build (`cargo kani playback` compiles
+        # the crate's test target with cfg(kani)). Keep them out of kani builds only.
+        text = re.sub(r"#\[cfg\(test\)\](\s*\n\s*mod \w+)", r"#[cfg(all(test, not(kani)))]\1", text)
         open(target, "w").write(text)
         crates_with_model.add(rel.split("/")[0])
     for c in prop.get("model_crates", []):
